@@ -205,6 +205,69 @@ def float_valid(s):
     return p == m
 
 
+def _p10(n):
+    """10**n for a small non-negative (possibly symbolic) n, by an explicit chain"""
+    for i in range(0, 40):
+        if n == i:
+            return 10 ** i
+    return 10 ** n
+
+
+def py_float(s):
+    """float(s) for a valid literal: the exact rational value of the decimal literal,
+    computed as (mantissa * 10**a) / 10**b (correctly rounded by int/int true division
+    when concrete; a z3 Real when symbolic - rounding is outside every claim that uses
+    this model).  Caller has checked float_valid(s)."""
+    a = _to_ascii(s)
+    n = len(a)
+    i = 0
+    while i < n and _isspace(a[i]):
+        i += 1
+    j = n
+    while j > i and _isspace(a[j - 1]):
+        j -= 1
+    b = [c for c in a[i:j] if c != 95]
+    m = len(b)
+    p = 0
+    neg = False
+    if p < m and (b[p] == 43 or b[p] == 45):
+        neg = b[p] == 45
+        p += 1
+    if _match_word(b, p, m, 'inf'):
+        return float('-inf') if neg else float('inf')
+    if _match_word(b, p, m, 'nan'):
+        return float('nan')
+    M = 0
+    k = 0
+    while p < m and 48 <= b[p] <= 57:
+        M = M * 10 + (b[p] - 48)
+        p += 1
+    if p < m and b[p] == 46:
+        p += 1
+        while p < m and 48 <= b[p] <= 57:
+            M = M * 10 + (b[p] - 48)
+            k += 1
+            p += 1
+    E = 0
+    if p < m and (b[p] == 101 or b[p] == 69):
+        p += 1
+        eneg = False
+        if p < m and (b[p] == 43 or b[p] == 45):
+            eneg = b[p] == 45
+            p += 1
+        while p < m and 48 <= b[p] <= 57:
+            E = E * 10 + (b[p] - 48)
+            p += 1
+        if eneg:
+            E = -E
+    sh = E - k
+    if sh >= 0:
+        v = (M * _p10(sh)) / 1
+    else:
+        v = M / _p10(-sh)
+    return -v if neg else v
+
+
 # ------------------------------------------------------------------ base64
 _B64 = 'ABCDEFGHIJKLMNOPQRSTUVWXYZabcdefghijklmnopqrstuvwxyz0123456789+/'
 
@@ -337,6 +400,20 @@ def selftest_int_float():
     words = ['inf', 'Infinity', 'nan', '-inf', '+NaN', 'infinit', 'infinityx', '1e5', '1e', '1e+', '1e+5', '.e1', '1.e1',
              '1_0.0_1e1_0', '1_.0', '1._0', '1e_5', '_1', '1_', '  1.5  ', '1 .5', '0x10', '1__0', '١٢٣', '1 ',
              ' 1e5\x85', 'in', 'na', '+', '-', '.', '..', '1.2.3', 'e5', '1e5e5', '0_0', '1_000_000', '1e1_0', 'i_nf']
+    import random
+    rnd = random.Random(5)
+    for _ in range(20000):
+        lit = ''.join(rnd.choice('0123456789') for _ in range(rnd.randrange(1, 8)))
+        if rnd.random() < 0.7:
+            lit += '.' + ''.join(rnd.choice('0123456789') for _ in range(rnd.randrange(0, 8)))
+        if rnd.random() < 0.5:
+            lit += rnd.choice('eE') + rnd.choice(['', '+', '-']) + str(rnd.randrange(0, 30))
+        lit = rnd.choice(['', '-', '+']) + lit
+        if py_float(lit) != float(lit):
+            raise AssertionError('py_float(%r) = %r, float() = %r' % (lit, py_float(lit), float(lit)))
+    for lit in ('inf', '-Infinity', '+INF'):
+        assert py_float(lit) == float(lit)
+    assert py_float('nan') != py_float('nan')
     for s in words:
         try:
             float(s)
